@@ -47,6 +47,11 @@ import (
 	"github.com/safing/portbase/database/record"
 	"github.com/safing/portbase/database/storage/fstree"
 	"github.com/safing/portbase/formats/dsd"
+	"github.com/safing/jess"
+	"github.com/safing/jess/filesig"
+	"github.com/safing/jess/lhash"
+	"github.com/safing/jess/tools"
+	_ "github.com/safing/jess/tools/all"
 	"github.com/safing/portbase/updater"
 	"github.com/safing/portbase/utils"
 	"github.com/safing/portbase/utils/renameio"
@@ -68,7 +73,7 @@ type Case struct {
 	Old     string `json:"old"`    // size class of the old content: empty | small | big
 	New     string `json:"new"`    // size class of the new content
 	Layout  string `json:"layout"` // tmpdir (TMPDIR on the same file system) | xdev (TMPDIR elsewhere) | explicit (opts.TempDir) | explicitx
-	Fault   string `json:"fault"`  // none | srcerr (source reader fails half way) | srceof (... with io.ErrUnexpectedEOF) | short (first download is cut short) | shortstream (every download is a close-delimited body cut short)
+	Fault   string `json:"fault"`  // none | badsig (fetch: required signature, damaged body) | srcerr (source reader fails half way) | srceof (... with io.ErrUnexpectedEOF) | short (first download is cut short) | shortstream (every download is a close-delimited body cut short)
 	Seed    int    `json:"seed"`
 	Root    string `json:"root"`   // sandbox (filled in by the batch runner)
 	Tmpdir  string `json:"tmpdir"` // TMPDIR of the writer (filled in by the batch runner)
@@ -583,11 +588,21 @@ func (l *layout) prepared(gen int) (func() error, func(), error) {
 		return func() error { return renameio.Symlink(target, l.dest) }, nop, nil
 	case "fetch":
 		var served int32
+		var sigOf func(map[string]string) ([]byte, error)
+		var sigBytes atomic.Value
 		ln, err := net.Listen("tcp", "127.0.0.1:0")
 		if err != nil {
 			return nil, nil, err
 		}
 		srv := &http.Server{Handler: http.HandlerFunc(func(w http.ResponseWriter, r *http.Request) {
+			if strings.HasSuffix(r.URL.Path, filesig.Extension) {
+				if b, _ := sigBytes.Load().([]byte); b != nil {
+					_, _ = w.Write(b)
+					return
+				}
+				http.NotFound(w, r)
+				return
+			}
 			n := atomic.AddInt32(&served, 1)
 			w.Header().Set("Content-Length", strconv.Itoa(len(data)))
 			if c.Fault == "short" && n == 1 {
@@ -629,8 +644,54 @@ func (l *layout) prepared(gen int) (func() error, func(), error) {
 				time.Sleep(time.Millisecond)
 			}
 		})}
-		go func() { _ = srv.Serve(ln) }()
 		reg := &updater.ResourceRegistry{Name: "verif", Online: true, UpdateURLs: []string{"http://" + ln.Addr().String()}}
+		var sigFile []byte
+		if c.Fault == "badsig" {
+			// downloads must be verified: the server delivers a valid signature of the resource, but the body it
+			// sends was damaged on the way (same length): every attempt fails, nothing may be published
+			updater.VerifBackoffUnit = time.Millisecond
+			trustStore := jess.NewMemTrustStore()
+			tool, err := tools.Get("Ed25519")
+			if err != nil {
+				return nil, nil, err
+			}
+			signet := jess.NewSignetBase(tool)
+			signet.ID = "verif-c17-key"
+			if err := tool.StaticLogic.GenerateKey(signet); err != nil {
+				return nil, nil, err
+			}
+			if err := trustStore.StoreSignet(signet); err != nil {
+				return nil, nil, err
+			}
+			rcpt, err := signet.AsRecipient()
+			if err != nil {
+				return nil, nil, err
+			}
+			if err := trustStore.StoreSignet(rcpt); err != nil {
+				return nil, nil, err
+			}
+			reg.Verification = map[string]*updater.VerificationOptions{"": {TrustStore: trustStore,
+				DownloadPolicy: updater.SignaturePolicyRequire, DiskLoadPolicy: updater.SignaturePolicyRequire}}
+			signed := append([]byte{}, data...)
+			if len(data) > 0 {
+				data = append([]byte{}, data...)
+				data[len(data)/2] ^= 0x55 // what the server sends differs from what was signed
+			}
+			defer func() {
+				_ = signed
+			}()
+			sigOf = func(meta map[string]string) ([]byte, error) {
+				envelope := jess.NewUnconfiguredEnvelope()
+				envelope.SuiteID = jess.SuiteSignV1
+				envelope.Senders = []*jess.Signet{signet}
+				letter, _, err := filesig.SignFileData(lhash.BLAKE2b_256.Digest(signed), meta, envelope, trustStore)
+				if err != nil {
+					return nil, err
+				}
+				return filesig.AddToSigFile(letter, nil, false)
+			}
+		}
+		go func() { _ = srv.Serve(ln) }()
 		if err := reg.Initialize(utils.NewDirStructure(l.pub, 0o755)); err != nil {
 			return nil, nil, err
 		}
@@ -638,6 +699,18 @@ func (l *layout) prepared(gen int) (func() error, func(), error) {
 			return nil, nil, err
 		}
 		reg.SelectVersions()
+		if sigOf != nil {
+			for _, res := range reg.Export() {
+				for _, rv := range res.Versions {
+					b, err := sigOf(rv.SigningMetadata())
+					if err != nil {
+						return nil, nil, err
+					}
+					sigFile = b
+				}
+			}
+			sigBytes.Store(sigFile)
+		}
 		return func() error { _, err := reg.GetFile(identFile); return err }, func() { _ = srv.Close() }, nil
 	case "unpack":
 		reg := &updater.ResourceRegistry{Name: "verif", Online: false, AutoUnpack: []string{identZip}}
